@@ -3,6 +3,8 @@ CONSTANTS
   LUnits = {"nm"}
   Routines = {"convert", "build", "noop"}
   Raising = {"convert", "set_rwa", "noop"}
+  MaxPool = 1
+  BackupAt = "enter"
   MaxCtx = 2
   MaxSteps = 12
 SPECIFICATION Spec
